@@ -1,6 +1,139 @@
 package drivers
 
-import "verif/harness/trace"
+import (
+	"bytes"
+	"context"
+	"encoding/json"
+	"fmt"
+	"math/rand"
+	"os"
+	"os/exec"
+	"path/filepath"
+	"strconv"
+	"strings"
 
-func systemGenOther(c *Ctx, w *trace.Writer, tmp string)                      {}
-func systemRerunOther(c *Ctx, w *trace.Writer, s *trace.Scenario, tmp string) {}
+	"github.com/scottyw/tetromino/gameboy"
+	"github.com/scottyw/tetromino/gameboy/controller"
+
+	"verif/harness/machine"
+	"verif/harness/trace"
+)
+
+// ---- C24: determinism --------------------------------------------------------------------
+
+type detResult struct {
+	Frames []int `json:"frames"`
+	Final  int   `json:"final"`
+}
+
+// detRun runs a ROM through package gameboy (stand-in display and speakers attached) for a number of frames with a
+// seeded button schedule and returns one digest per frame plus a final digest that includes the audio stream.
+func detRun(rom string, seed int64, frames int) detResult {
+	rng := rand.New(rand.NewSource(seed))
+	serial := &bytes.Buffer{}
+	gb := gameboy.New(gameboy.Config{RomFilename: rom, SerialWriter: serial})
+	var res detResult
+	held := map[controller.Button]bool{}
+	buttons := []controller.Button{controller.Up, controller.Down, controller.Left, controller.Right, controller.A, controller.B, controller.Start, controller.Select}
+	for f := 0; f < frames; f++ {
+		if rng.Intn(3) == 0 {
+			b := buttons[rng.Intn(len(buttons))]
+			held[b] = !held[b]
+			gb.VerifDisplay().VerifButton(b, held[b])
+		}
+		gb.VerifRunFrame(context.Background())
+		res.Frames = append(res.Frames, gbDigest(gb, serial)^digest([]byte{gb.VerifMapper().VerifPeek(0xff00)}))
+	}
+	spk := gb.VerifSpeakers()
+	gb.Cleanup()
+	res.Final = digest([]byte(fmt.Sprint(spk.HashL, spk.HashR, spk.Samples)), serial.Bytes(), gb.VerifMapper().DumpRAM())
+	return res
+}
+
+func detScenario(id, rom string, seed int64, frames int) *trace.Scenario {
+	sc := &trace.Scenario{ID: id, Reset: []any{"det", rom, seed, frames}}
+	perr := machine.Try(func() {
+		a := detRun(rom, seed, frames)
+		b := detRun(rom, seed, frames)
+		// third run in a separate process
+		self, _ := os.Executable()
+		cmd := exec.Command(self, "system", "detchild", "-in", rom, "-seed", strconv.FormatInt(seed, 10), "-shards", strconv.Itoa(frames))
+		out, err := cmd.Output()
+		if err != nil {
+			panic(fmt.Sprintf("child process failed: %v", err))
+		}
+		var c detResult
+		line := strings.TrimSpace(string(out))
+		if i := strings.LastIndex(line, "DET "); i >= 0 {
+			if err := json.Unmarshal([]byte(line[i+4:]), &c); err != nil {
+				panic(err)
+			}
+		} else {
+			panic("child process printed no result: " + line)
+		}
+		for f := 0; f < frames; f++ {
+			cv := -1
+			if f < len(c.Frames) {
+				cv = c.Frames[f]
+			}
+			sc.Ev = append(sc.Ev, []any{"d3", f, a.Frames[f], b.Frames[f], cv})
+		}
+		sc.Ev = append(sc.Ev, []any{"d3", frames, a.Final, b.Final, c.Final})
+	})
+	if perr != "" {
+		sc.Ev = append(sc.Ev, []any{"panic", perr})
+	}
+	return sc
+}
+
+func systemGenOther(c *Ctx, w *trace.Writer, tmp string) {
+	if c.Mode == "detchild" {
+		return
+	}
+	if c.Want("det") {
+		n, frames := 5, 30
+		if c.Thorough() {
+			n, frames = 24, 120
+		}
+		rng := c.Rand(2401)
+		roms := romList(c, tmp, n)
+		// all available test ROMs in thorough
+		if c.Thorough() {
+			filepath.Walk(filepath.Join(repoDir(), "gameboy", "testdata"), func(p string, info os.FileInfo, err error) error {
+				if err == nil && !info.IsDir() && strings.HasSuffix(p, ".gb") && info.Size() > 0x150 {
+					roms = append(roms, p)
+				}
+				return nil
+			})
+		}
+		for i, rom := range roms {
+			fr := frames
+			if i >= n {
+				fr = 30
+			}
+			w.Put(detScenario(fmt.Sprintf("system-det-%d", i), rom, rng.Int63n(1<<40), fr))
+		}
+	}
+	systemGenMulti(c, w, tmp)
+}
+
+func systemRerunOther(c *Ctx, w *trace.Writer, s *trace.Scenario, tmp string) {
+	r := s.Reset.([]any)
+	rom := trace.Str(r[1])
+	if strings.HasPrefix(filepath.Base(rom), "gen-") {
+		rom = filepath.Join(tmp, filepath.Base(rom))
+	}
+	switch trace.Str(r[0]) {
+	case "det":
+		w.Put(detScenario(s.ID, rom, int64(trace.Int(r[2])), trace.Int(r[3])))
+	default:
+		systemRerunMulti(c, w, s, tmp)
+	}
+}
+
+// systemDetChild: `drv system detchild -in ROM -seed S -shards FRAMES`
+func systemDetChild(c *Ctx) {
+	res := detRun(c.In, c.Seed, c.Shards)
+	b, _ := json.Marshal(res)
+	fmt.Println("DET " + string(b))
+}
